@@ -2060,6 +2060,19 @@ func TestVerifC14(t *testing.T) {
 		if r.Mine() && only == "" {
 			e.partIntDuty()
 		}
+		// edge bytes of every unit's SSZ encoding (zz_verif_c14edges_test.go)
+		for _, u := range units {
+			if !r.Mine() {
+				continue
+			}
+			if r.Expired() {
+				return
+			}
+			if only != "" && !strings.Contains(u.Name, only) {
+				continue
+			}
+			e.partEdges(u)
+		}
 		if enumx.Thorough() {
 			for _, u := range units {
 				K := 7 // coprime with the usual shard counts, so that the heavy items do not pile up on a few shards
